@@ -33,6 +33,7 @@ def check(repo, tier="quick"):
     res.rule("C03.d", "fragments: first fragment holds the transform parameters and no slices; every slice is appended exactly once, in raster order; a new fragment starts exactly when the previous one holds fragment_slice_count slices and carries the coordinates of its first slice")
     res.rule("C03.e", "shared clauses re-evaluated: data-unit patterns (C19.e), every rule of C07 (the encoder leaves parse offsets, picture numbers and major_version to automatic filling), every rule of C15 (the emitted sequence header decodes to the configured format), lossless slice-size scaler fits the length field (C04.f)")
     res.rule("C03.g", "no call in the encoder passes same-named coordinates/sizes to the wrong parameters, and no size guard is followed by a further decrement of the guarded quantity")
+    res.rule("C03.h", "what the validator rejects about the configured format the encoder rejects too: the validator refuses frame sizes that are not whole multiples of the luma and colour-difference picture sizes (PictureDimensionsNotMultipleOfFrameDimensions, e.g. an odd width with 4:2:2 sampling or an odd height coded as fields); the encoder or the codec-features reader must raise for the same condition (a divisibility test on the frame dimensions guarding a raise), otherwise it accepts a configuration whose stream the validator rejects")
     res.rule("C03.f", "scratch State dictionaries the encoder builds for the pseudocode helpers (slice_bytes, picture_dimensions, ...) bind every key to its own source: codec_features[k] under key k, width()/height() of the slice array under the _x/_y key, a same-named local under its own name")
 
     rule_a(repo, res)
@@ -41,6 +42,7 @@ def check(repo, tier="quick"):
     rule_d(repo, res)
     rule_e(repo, res)
     rule_f(repo, res)
+    rule_h(repo, res)
     from .. import lints
 
     lints.rule(repo, res, "C03.g", [n.split("vc2_conformance.", 1)[-1] for n in sorted(repo.modules) if n.startswith("vc2_conformance.encoder.")] + ["codec_features", "pseudocode.picture_encoding", "bitstream.vc2_autofill"])
@@ -406,3 +408,22 @@ def rule_f(repo, res):
                 n += 1
                 res.check(not bad, "C03.f", "%s:State(%s)" % (fn.name, ",".join(k.arg or "**" for k in c.keywords)[:60]), "%s:%s" % (m.rel, fn.name), "scratch State built with mismatched sources: %s -- the pseudocode helper then computes for a different configuration than the one written to the stream" % "; ".join(bad), by="every key bound to its own source")
     res.info["scratch_states"] = n
+
+
+def rule_h(repo, res):
+    # the validator's side exists
+    dm = repo.mod("decoder.sequence_header")
+    v_raises = [r for r in ast.walk(dm.tree) if isinstance(r, ast.Raise) and isinstance(r.exc, ast.Call) and dotted(r.exc.func) == "PictureDimensionsNotMultipleOfFrameDimensions"]
+    if not v_raises:
+        raise AnalysisError("validator no longer raises PictureDimensionsNotMultipleOfFrameDimensions")
+    # the encoder's side: an `if ... % ...` on frame/picture dimensions guarding a raise, anywhere in the encoder or the reader
+    found = []
+    for name, m in sorted(repo.modules.items()):
+        if not (name.startswith("vc2_conformance.encoder.") or name.endswith(".codec_features")):
+            continue
+        for i in ast.walk(m.tree):
+            if isinstance(i, ast.If) and any(isinstance(x, ast.Raise) for x in ast.walk(i)):
+                t = norm(i.test)
+                if "%" in t and any(k in t for k in ("frame_width", "frame_height", "luma_width", "luma_height", "color_diff_width", "color_diff_height")):
+                    found.append("%s:%d" % (m.rel, i.lineno))
+    res.check(bool(found), "C03.h", "frame-size-divisibility:encoder-counterpart", "vc2_conformance/encoder", "the validator rejects frame sizes that are not whole multiples of the picture component sizes (decoder/sequence_header.py), but neither the encoder nor read_codec_features_csv tests this: e.g. a 7x4 4:2:2 configuration is accepted, encoded, and the stream is then rejected by the validator", by="guarded raise at %s" % ", ".join(found))
